@@ -21,6 +21,7 @@ Quote(c) == IF c = 97 THEN "was expecting \"a\"" ELSE IF c = 98 THEN "was expect
             ELSE IF c = 120 THEN "was expecting \"x\"" ELSE IF c = 121 THEN "was expecting \"y\""
             ELSE IF c = 99 THEN "was expecting \"c\"" ELSE IF c = 100 THEN "was expecting \"d\""
             ELSE IF c = 32 THEN "was expecting \" \""
+            ELSE IF c = 37 THEN "was expecting \"%\""
             ELSE IF c = 10 THEN "was expecting \"\\n\"" ELSE "was expecting \"?\""
 Tm(c) == N("term", "", <<>>, c, Quote(c))
 Eps == N("empty", "", <<>>, 0, "")
@@ -155,12 +156,21 @@ OptBodies ==
 
 \* terminals that match a line feed, so that errors are reported on later lines (C06)
 NLt == Tm(10)
+PCt == Tm(37)
 LineBodies == {
   SeqE("of", <<SeqE("many", <<AnyE(<<A, NLt>>)>>), Bt>>),
   SeqE("of", <<SeqE("many", <<NLt>>), A, SeqE("many", <<NLt>>), Bt>>),
   AnyE(<<SeqE("of", <<NLt, Ref(1)>>), SeqE("of", <<A, NLt, Bt>>), A>>),
   SeqE("sepby1", <<AnyE(<<A, SeqE("of", <<A, Bt>>)>>), NLt>>),
-  SeqE("of", <<Opt(SeqE("of", <<NLt, NLt, A>>)), NLt, Bt>>)
+  SeqE("of", <<Opt(SeqE("of", <<NLt, NLt, A>>)), NLt, Bt>>),
+  \* an expectation whose text contains a per-cent sign (the message is data, not a format)
+  SeqE("of", <<A, PCt, Bt>>),
+  AnyE(<<SeqE("of", <<A, PCt, Ref(1)>>), SeqE("of", <<Bt, AnyE(<<A, Bt>>), PCt>>), A>>),
+  \* a Choice that is entered again from one of its own alternatives (right recursion): the failure an earlier alternative
+  \* of the outer activation left behind is deeper than everything tried afterwards
+  ChoiceE(<<SeqE("of", <<A, Bt, A>>), SeqE("of", <<A, NLt, Ref(1)>>), SeqE("of", <<A, Ref(1)>>), Bt>>),
+  ChoiceE(<<SeqE("of", <<A, A, Bt>>), SeqE("of", <<A, Ref(1)>>), Bt>>),
+  ChoiceE(<<SeqE("of", <<A, Ref(1), Bt, Bt>>), SeqE("of", <<A, Ref(1), A>>), Bt>>)
 }
 
 \* separators and repeated elements of MORE THAN ONE terminal (C06): an item that fails after its first terminal leaves
